@@ -29,7 +29,7 @@ ASSUMPTIONS = [
 
 HT_NAME = {0: "DEFAULT", 1: "ALL", 2: "NONE", 3: "SINGLE", 0x81: "ALL|ACP", 0x82: "NONE|ACP", 0x83: "SINGLE|ACP"}
 KINDS = ["p2pkh", "p2sh-ms", "p2wpkh", "p2sh-p2wpkh", "p2wsh", "p2sh-p2wsh", "p2tr-key", "p2tr-key-annex", "p2tr-script", "p2tr-script-annex"]
-EDITS = ["out-amount", "out-script", "add-out", "remove-out", "in-sequence", "in-prevout", "add-in", "remove-in", "locktime", "version", "annex-toggle", "spent-amount", "leaf-swap-in-place"]
+EDITS = ["out-amount", "out-script", "add-out", "remove-out", "in-sequence", "in-prevout", "add-in", "remove-in", "locktime", "version", "annex-toggle", "spent-amount", "leaf-swap-in-place", "add-default-in-then-fill-scriptsig"]
 
 GATES = {
     "contracts-ran": ["Tx.sig_hash_legacy", "Tx.sig_hash_bip143", "Tx.sig_hash_bip341", "Tx.sig_hash"],
@@ -392,6 +392,20 @@ def do_edit(ctx, rng, tx, spent, extras, edit):
         tx.tx_ins.insert(pos, ti)
         spent.insert(pos, b)
         extras.insert(pos, c)
+    elif edit == "add-default-in-then-fill-scriptsig":
+        # an input created WITHOUT a ScriptSig argument (the library's default object), whose ScriptSig is then
+        # filled in place the way an incremental signer does: no other script of this or of any later transaction
+        # (nor the blank scripts the legacy algorithm substitutes) may pick the appended commands up
+        a, b, c = gen_input(rng, "p2pkh")
+        ti = TxIn(a["txid"], a["vout"])
+        ti._value = b["amount"]
+        ti._script_pubkey = ScriptPubKey.parse(io.BytesIO(sh.varbytes(b["script"])))
+        pos = rng.randrange(len(tx.tx_ins) + 1)
+        tx.tx_ins.insert(pos, ti)
+        spent.insert(pos, b)
+        extras.insert(pos, c)
+        ti.script_sig.commands.append(b"\x30" + rng.randbytes(69) + b"\x01")
+        ti.script_sig.commands.append(b"\x02" + rng.randbytes(32))
     elif edit == "remove-in" and len(tx.tx_ins) > 1:
         pos = rng.randrange(len(tx.tx_ins))
         tx.tx_ins.pop(pos)
